@@ -154,7 +154,7 @@ impl Judgement {
 /// One property = generator + concretisation + oracle.
 pub trait Property: Sync {
     type Abs: Debug + Clone + Send + 'static;
-    type Case: Serialize + DeserializeOwned + Debug + Clone;
+    type Case: Serialize + DeserializeOwned + Debug + Clone + Send;
     fn id(&self) -> &'static str;
     fn strategy(&self, tier: Tier) -> BoxedStrategy<Self::Abs>;
     fn concretize(&self, a: &Self::Abs) -> Self::Case;
@@ -179,6 +179,11 @@ pub trait Property: Sync {
         "exploration"
     }
     fn exhaustive_per_case(&self) -> bool {
+        false
+    }
+    /// a case that does not return within the watchdog limit is a violation of
+    /// the property itself (C07) rather than a harness problem
+    fn hang_is_violation(&self) -> bool {
         false
     }
 }
@@ -309,8 +314,47 @@ pub fn explore<P: Property>(p: &P, tier: Tier, seed: u64) -> Outcome {
     let violations: Mutex<Vec<ViolationReport>> = Mutex::new(Vec::new());
     let harness_bugs: Mutex<Vec<String>> = Mutex::new(Vec::new());
     let progress = AtomicU64::new(0);
+    let slots: Vec<Mutex<Option<(Instant, P::Case)>>> = (0..workers).map(|_| Mutex::new(None)).collect();
+    let done = AtomicBool::new(false);
+    let remaining = AtomicU64::new(workers as u64);
+    let limit_s: u64 = std::env::var("VERIF_CASE_TIMEOUT")
+        .ok()
+        .and_then(|s| s.parse().ok())
+        .unwrap_or(120);
 
     std::thread::scope(|scope| {
+        // watchdog
+        {
+            let slots = &slots;
+            let done = &done;
+            scope.spawn(move || {
+                while !done.load(Ordering::Relaxed) {
+                    std::thread::sleep(std::time::Duration::from_millis(250));
+                    for sl in slots.iter() {
+                        let g = sl.lock().unwrap();
+                        if let Some((t, case)) = g.as_ref() {
+                            if t.elapsed().as_secs() >= limit_s {
+                                let path = write_replay(p, case, "no-return", "case did not return within the watchdog limit", seed, tier);
+                                if p.hang_is_violation() {
+                                    println!("VIOLATION property={} replay={}", p.id(), path.display());
+                                    println!("  sig=no-return the call did not return within {} s", limit_s);
+                                    std::process::exit(1);
+                                } else {
+                                    eprintln!(
+                                        "HARNESS-PROBLEM property={} a case ran longer than {} s (inconclusive); saved as {}",
+                                        p.id(),
+                                        limit_s,
+                                        path.display()
+                                    );
+                                    std::process::exit(2);
+                                }
+                            }
+                        }
+                    }
+                }
+            });
+        }
+
         for w in 0..workers {
             let known = &known;
             let stop = &stop;
@@ -318,6 +362,9 @@ pub fn explore<P: Property>(p: &P, tier: Tier, seed: u64) -> Outcome {
             let violations = &violations;
             let harness_bugs = &harness_bugs;
             let progress = &progress;
+            let slots = &slots;
+            let done = &done;
+            let remaining = &remaining;
             std::thread::Builder::new()
                 .name(format!("w{}", w))
                 .stack_size(64 << 20)
@@ -329,7 +376,10 @@ pub fn explore<P: Property>(p: &P, tier: Tier, seed: u64) -> Outcome {
                         if i % workers != w || stop.load(Ordering::Relaxed) {
                             continue;
                         }
-                        match judge_safe(p, &mut c, &mut st) {
+                        *slots[w].lock().unwrap() = Some((Instant::now(), c.clone()));
+                        let jr = judge_safe(p, &mut c, &mut st);
+                        *slots[w].lock().unwrap() = None;
+                        match jr {
                             Judgement::Pass => {}
                             Judgement::Violation { sig, msg } => {
                                 if let Some(t) = known.matches(p.id(), &sig) {
@@ -370,7 +420,9 @@ pub fn explore<P: Property>(p: &P, tier: Tier, seed: u64) -> Outcome {
                         }
                         let mut case = p.concretize(&abs);
                         let mut stb = stc.borrow_mut();
+                        *slots[w].lock().unwrap() = Some((Instant::now(), case.clone()));
                         let j = judge_safe(p, &mut case, &mut stb);
+                        *slots[w].lock().unwrap() = None;
                         progress.fetch_add(1, Ordering::Relaxed);
                         match j {
                             Judgement::Pass => Ok(()),
@@ -424,6 +476,9 @@ pub fn explore<P: Property>(p: &P, tier: Tier, seed: u64) -> Outcome {
                     }
                     st.frozen = false;
                     merged.lock().unwrap().merge(st);
+                    if remaining.fetch_sub(1, Ordering::SeqCst) == 1 {
+                        done.store(true, Ordering::Relaxed);
+                    }
                 })
                 .expect("spawn worker");
         }
